@@ -10,10 +10,8 @@ import TinyHttpModel.PoolCase
 open TH TH.Proto
 
 def handle (line : String) : Option String :=
-  match line.toList with
-  | [] => none
-  | '#' :: _ => none
-  | _ =>
+  if line.isEmpty || line.startsWith "#" then none
+  else
     let kv := fields line
     match kv with
     | (kind, _) :: rest =>
@@ -27,7 +25,7 @@ def handle (line : String) : Option String :=
 partial def loop (h : IO.FS.Stream) (out : IO.FS.Stream) (n : Nat) : IO Nat := do
   let line ← h.getLine
   if line.isEmpty then return n
-  let line := String.ofList (line.toList.filter (fun c => c != '\n' && c != '\r'))
+  let line := (line.splitOn "\n").headD ""
   match handle line with
   | some r => out.putStrLn r
   | none => pure ()
